@@ -571,12 +571,26 @@ pub fn p_sig() -> Vec<(String, Machine)> {
 }
 pub fn p_big() -> Vec<(String, Machine)> {
     let mut v = vec![];
-    for (n, d) in big_dists() {
+    // every distribution family with a start offset above one day (with and without an explicit maximum)
+    let mut dists: Vec<(String, Dist)> = big_dists().into_iter().map(|(n, d)| (n.to_string(), d)).collect();
+    for (n, d) in all11() {
+        dists.push((format!("{n}_start1e12"), Dist { dist: d.dist, start: 1e12, max: 0.0 }));
+        dists.push((format!("{n}_start1e12_max1e13"), Dist { dist: d.dist, start: 1e12, max: 1e13 }));
+    }
+    for (n, d) in dists {
+        if n.starts_with("binomial") {
+            continue; // Binomial samplers under the explorer's extreme words are C13's subject (see p_big_binomial)
+        }
         for kind in 0..4 {
             v.push((format!("big[{n},k{kind}]"), big_machine(kind, d)));
         }
     }
     v
+}
+/// Binomial with a start offset above one day: explored with central RNG words only
+pub fn p_big_binomial() -> Vec<(String, Machine)> {
+    let d = Dist::new(DistType::Binomial { trials: 4, probability: 0.5 }, 1e12, 0.0);
+    (0..4).map(|k| (format!("big[binomial_start1e12,k{k}]"), big_machine(k, d))).collect()
 }
 pub fn p_all11() -> Vec<(String, Machine)> {
     let mut v = vec![];
